@@ -52,6 +52,46 @@ def shape_errors_details(details):
     return bad
 
 
+def junk_state():
+    from compare_locales.parser.android import XMLJunk
+    return (parser.Junk.junkid, XMLJunk.__dict__.get("junkid"))
+
+
+def set_junk_state(st):
+    from compare_locales.parser.android import XMLJunk
+    parser.Junk.junkid = st[0]
+    if st[1] is None:
+        if "junkid" in XMLJunk.__dict__:
+            del XMLJunk.junkid
+    else:
+        XMLJunk.junkid = st[1]
+
+
+def entity_junk_clash(fname, refp, l10p, state0):
+    """root cause of finding F8-junk-key-clash-raise, decided on the input: with the junk counters as they were when
+    `compare` started (`state0` = junk_state(), or 0 for a fresh process), does the key of a Junk of one file equal the
+    key of an ENTITY of the other file?  (Two Junks of the two files never share a key in the unchanged code: the
+    counter value is part of the key.)"""
+    saved = junk_state()
+    try:
+        set_junk_state((0, None) if state0 == 0 else state0)
+        p = type(parser.getParser(fname))()
+        p.readFile(refp)
+        ref = list(p.walk(only_localizable=True))
+        p.readFile(l10p)
+        l10n = list(p.walk(only_localizable=True))
+    except Exception:
+        return False
+    finally:
+        set_junk_state(saved)
+
+    def is_junk(e):
+        return isinstance(e, parser.Junk)
+    rj = {e.key for e in ref if is_junk(e)}
+    lj = {e.key for e in l10n if is_junk(e)}
+    return any((not is_junk(e)) and e.key in rj for e in l10n) or any((not is_junk(e)) and e.key in lj for e in ref)
+
+
 def impl_robust(fmt, ref_latin, l10n_latin, with_merge):
     fname = FNAME[fmt]
     base = os.environ.get("VERIF_TMP") or tempfile.gettempdir()
@@ -69,11 +109,13 @@ def impl_robust(fmt, ref_latin, l10n_latin, with_merge):
         mergep = os.path.join(root, "merge", fname) if with_merge else None
         cc = ContentComparer()
         cc.observers.append(Observer())
+        junkid0 = junk_state()
         try:
             cc.compare(File(refp, fname, locale=None), File(l10p, fname, locale="xx"), mergep)
             res["stages"]["compare"] = "ok"
         except Exception as e:
             res["stages"]["compare"] = exc_info(e)
+            res["stages"]["compare"]["entity_junk_clash"] = entity_junk_clash(fname, refp, l10p, junkid0)
         try:
             rep = cc.observers.toJSON()
             details = flat(rep["details"], [])
@@ -92,12 +134,16 @@ def impl_robust(fmt, ref_latin, l10n_latin, with_merge):
         # U+FFFD: every localized string shared with the reference whose text contains it gets a warning
         if res["stages"].get("compare") == "ok":
             try:
-                p = type(parser.getParser(fname))()
-                p.readFile(refp)
-                ref = p.parse()
-                p2 = type(parser.getParser(fname))()
-                p2.readFile(l10p)
-                l10n = p2.parse()
+                try:
+                    p = type(parser.getParser(fname))()
+                    p.readFile(refp)
+                    ref = p.parse()
+                    p2 = type(parser.getParser(fname))()
+                    p2.readFile(l10p)
+                    l10n = p2.parse()
+                except RecursionError:
+                    # the harness's own re-parse: the external parser gave up (compare reported that as an error); nothing shared to judge
+                    ref, l10n = [], []
                 seen = set()
                 msgs = [d.get("warning", "") for d in details if "warning" in d]
                 for e in l10n:
